@@ -37,7 +37,7 @@ ASSUMPTIONS = [
   "sphere/capsule pairs whose centres / centre lines are closer than 5 mm (normal = v/|v| ill-conditioned or an arbitrary fallback): only (F) is judged there (boundary-skipped)",
 ]
 BUDGET = {
-  "quick": dict(examples=1200, seconds=150, workers=16),
+  "quick": dict(examples=1200, seconds=420, workers=16),
   "thorough": dict(examples=20000, seconds=1500, workers=16),
 }
 
